@@ -59,6 +59,10 @@ pub struct Sel {
     /// 127 of the 4096 king-pair shards)
     pub m4_corner: Option<i32>,
     pub sanamb: Option<(usize, bool)>,
+    /// two simultaneous pin lines, men at distance <= n from the king
+    pub pin2: Option<usize>,
+    /// slider-table universe at position level
+    pub occ: bool,
     pub counters: bool,
     pub material: Option<Vec<u32>>,
     /// deep DFS without dedup from the first `n` seeds to the given depth
@@ -76,6 +80,7 @@ impl Sel {
                 promo: Some(true),
                 reach: Some(4),
                 m4: Some(uni::M4_SHARDS),
+                pin2: Some(4),
                 ..Default::default()
             }
         } else {
@@ -86,6 +91,8 @@ impl Sel {
                 castle: Some(false),
                 promo: Some(false),
                 reach: Some(3),
+                pin2: Some(3),
+                occ: true,
                 ..Default::default()
             }
         }
@@ -159,6 +166,16 @@ pub fn run_universes(run: &mut Run, sel: &Sel, disagree_idx: usize, check: PosCh
                 uni::promo(sh, full, &mut |p| visit(ctx, p, disagree_idx, check));
             },
         );
+    }
+    if let Some(n) = sel.pin2 {
+        run.par_shards(&format!("PIN2 (two pin / x-ray lines through the king, distances <= {})", n), uni::PIN2_SHARDS, |ctx, sh| {
+            uni::pin2(sh, n, &mut |p| visit(ctx, p, disagree_idx, check));
+        });
+    }
+    if sel.occ {
+        run.par_shards("OCC (every blocker subset on the rook / bishop lines of every square, as positions)", uni::OCC_SHARDS, |ctx, sh| {
+            uni::occ(sh, &mut |p| visit(ctx, p, disagree_idx, check));
+        });
     }
     if let Some((n, pin)) = sel.sanamb {
         run.par_shards(
